@@ -18,14 +18,14 @@ git -C /repo worktree add -q --detach "$WT" HEAD || exit 2
 trap 'git -C /repo worktree remove --force "$WT" 2>/dev/null; rm -rf "$WT" "$LOGD"; git -C /repo worktree prune' EXIT
 PKG="./$(dirname "$DEST")/"
 RUNPAT="$(grep -oE 'func (Test[A-Za-z0-9_]+)' "$SRC/$DEMO" | awk '{print $2}' | paste -sd'|')"
-cp "$SRC/$DEMO" "$WT/$DEST"
+mkdir -p "$(dirname "$WT/$DEST")"; cp "$SRC/$DEMO" "$WT/$DEST"
 ( cd "$WT" && timeout 300 go test -vet=off -count=1 -run "^($RUNPAT)\$" "$PKG" >"$LOGD/clean.log" 2>&1 ); CLEAN=$?
 rm -f "$WT/$DEST"
 git -C "$WT" apply "$SRC/patch.diff" 2>/dev/null || git -C "$WT" apply -3 "$SRC/patch.diff" || { echo "RESULT $ID: patch does not apply"; exit 1; }
 git -C "$WT" add -A; git -C "$WT" diff --cached HEAD > "$LOGD/patch.rebased"; git -C "$WT" reset -q   # the change expressed against the current HEAD (hook commit included)
 ( cd "$WT" && go build ./... >"$LOGD/build.log" 2>&1 ); BUILD=$?
 ( cd "$WT" && timeout 600 go test -vet=off -count=1 ./... >"$LOGD/suite.log" 2>&1 ); SUITE=$?
-cp "$SRC/$DEMO" "$WT/$DEST"
+mkdir -p "$(dirname "$WT/$DEST")"; cp "$SRC/$DEMO" "$WT/$DEST"
 ( cd "$WT" && timeout 300 go test -vet=off -count=1 -run "^($RUNPAT)\$" "$PKG" >"$LOGD/mut.log" 2>&1 ); MUT=$?
 echo "RESULT $ID: demo-on-clean=$CLEAN (want 0) build=$BUILD (want 0) suite=$SUITE (want 0) demo-with-change=$MUT (want !=0)"
 if [ $CLEAN -eq 0 ] && [ $BUILD -eq 0 ] && [ $SUITE -eq 0 ] && [ $MUT -ne 0 ]; then
